@@ -129,7 +129,7 @@ def SlotServed (l : Linker) (q : Nat × Nat) (sl : Slot) : Prop :=
 
 theorem carried_bytes (rd : SongRead) : ∀ c ∈ rd.carried,
     match c with
-    | .pcm _ hdr b => b = readAt rd.pcmd hdr.position hdr.size
+    | .pcm _ hdr b => b = readAt rd.pcmd (hdr.position + hdr.start) hdr.size
     | .data .. => True := by
   intro c hc
   simp only [SongRead.carried, List.mem_filterMap] at hc
@@ -146,7 +146,7 @@ theorem carried_bytes (rd : SongRead) : ∀ c ∈ rd.carried,
     · cases hch
 
 theorem served_of_serves (l : Linker) (hlen : l.dataBank.length < 32768) (rd : SongRead) (q : Nat × Nat) (c : Carried)
-    (hc : c ∈ rd.carried) (h : Serves l q c) (h0 : (toSlot rd.pcmd c).start = 0) : SlotServed l q (toSlot rd.pcmd c) := by
+    (hc : c ∈ rd.carried) (h : Serves l q c) : SlotServed l q (toSlot rd.pcmd c) := by
   have hb := carried_bytes rd c hc
   cases c with
   | data addr flag bytes =>
@@ -169,11 +169,10 @@ theorem served_of_serves (l : Linker) (hlen : l.dataBank.length < 32768) (rd : S
       · exact h
       · rw [List.getElem?_eq_none h] at h3; cases h3
     have hm : idx % 65536 = idx := Nat.mod_eq_of_lt (by omega)
-    simp only [toSlot] at h0
     refine ⟨h1, idx, e, by omega, ?_, h3, rfl, ?_⟩
     · simp only [toSlot]; rw [h2, hm]; simp
     · show PcmHeaderServes e (getPcmData l) l.wave.bankSize hdr.rate (readAt rd.pcmd (hdr.position + hdr.start) hdr.size)
-      rw [h0, Nat.add_zero, ← hb]; exact h4
+      rw [← hb]; exact h4
 
 theorem slotOk_of_served (l : Linker) (bank d : Bytes) (q : Nat × Nat) (sl : Slot) (t : Nat) (e' : Bytes)
     (hs : SlotServed l q sl) (ht : t < 32768) (he : l.dataBank[q.2 % 32768]? = some e')
